@@ -260,6 +260,84 @@ func registerFS(e *Engine) {
 		f.content = data
 		return nilErr(), nil
 	})
+	// os.OpenFile / (*os.File).Write / Close: enough for "create (exclusive / truncating), write, close"
+	e.reg("os.OpenFile", func(ex *Exec, fn *ssa.Function, args []Value) (Value, *PanicV) {
+		c := ex.ctx
+		name := ex.argString(args[0])
+		flag := argTerm(ex, args[1])
+		if !flag.isConst {
+			ex.unsupported("os.OpenFile with symbolic flags")
+		}
+		const oCreate, oExcl, oTrunc = 0x40, 0x80, 0x200
+		s := ex.fsGet()
+		f := s.files[name]
+		exists := f != nil && f.exists
+		if exists && flag.cv&oExcl != 0 && flag.cv&oCreate != 0 {
+			return TupleV{Ptr{}, ex.errorString("open " + name + ": file exists")}, nil
+		}
+		if !exists && flag.cv&oCreate == 0 {
+			return TupleV{Ptr{}, ex.enoent()}, nil
+		}
+		if !exists || flag.cv&oTrunc != 0 {
+			if !ex.fsStep("open-create/truncate " + name) {
+				panic(crashSignal{})
+			}
+			if f == nil {
+				f = &fsFile{}
+				s.files[name] = f
+			}
+			if !exists {
+				f.perm = argTerm(ex, args[2])
+			}
+			f.exists = true
+			f.content = Region{ex.zeroNode(), c64(c, 0), c64(c, 0)}
+		}
+		ft := ex.eng.pkgs["os"].Type("File").Type()
+		o := ex.newObj(ex.zeroValue(ft), "os.File:"+name)
+		ex.st["file:"+itoa(o.id)] = name
+		ex.st["filepos:"+itoa(o.id)] = c64(c, 0)
+		return TupleV{Ptr{obj: o}, nilErr()}, nil
+	})
+	e.reg("(*os.File).Write", func(ex *Exec, fn *ssa.Function, args []Value) (Value, *PanicV) {
+		c := ex.ctx
+		p := args[0].(Ptr)
+		name, ok := ex.st["file:"+itoa(p.obj.id)].(string)
+		if !ok {
+			ex.unsupported("Write on a file not opened by the model")
+		}
+		data := ex.sliceRegion(args[1].(SliceV))
+		s := ex.fsGet()
+		f := s.files[name]
+		pos := ex.st["filepos:"+itoa(p.obj.id)].(*Term)
+		overlay := func(n *Term) {
+			// write n bytes at pos over the existing content (no truncation)
+			if isZero(pos) && isZero(f.content.n) {
+				f.content = Region{data.node, data.off, n}
+				return
+			}
+			node := ex.copyNode(ex.shiftNode(f.content.node, f.content.off), pos, data.node, data.off, n)
+			end := c.Add(pos, n)
+			f.content = Region{node, c64(c, 0), c.Ite(c.Ult(f.content.n, end), end, f.content.n)}
+		}
+		if !ex.fsStep("write " + name) {
+			if s.torn {
+				k := c.Fresh("torn", BV(64))
+				ex.recordDraw(Draw{Name: "torn_write_len", Kind: "uint", Term: k, Width: 64})
+				ex.addAxiom(c.Ult(k, data.n))
+				overlay(k)
+			}
+			panic(crashSignal{})
+		}
+		overlay(data.n)
+		ex.st["filepos:"+itoa(p.obj.id)] = c.Add(pos, data.n)
+		return TupleV{data.n, nilErr()}, nil
+	})
+	e.reg("(*os.File).Close", func(ex *Exec, fn *ssa.Function, args []Value) (Value, *PanicV) {
+		return nilErr(), nil
+	})
+	e.reg("(*os.File).Sync", func(ex *Exec, fn *ssa.Function, args []Value) (Value, *PanicV) {
+		return nilErr(), nil
+	})
 	e.reg("os.Rename", func(ex *Exec, fn *ssa.Function, args []Value) (Value, *PanicV) {
 		from, to := ex.argString(args[0]), ex.argString(args[1])
 		s := ex.fsGet()
